@@ -605,8 +605,8 @@ func ruleDistSiblings(c *Ctx, r *Report, rule string, enc, dec *ssa.Function) {
 		}
 		nEnc++
 		first := ep.evs[0]
-		if strings.ReplaceAll(first.recv, "&"+er+".", "&C.") != "&C.posSlotCodecs[(call lenState $l)]" {
-			okEnc, why = false, "the position slot is not coded with posSlotCodecs[lenState(l)] but "+first.recv
+		if !slotCodecOK(strings.ReplaceAll(first.recv, "&"+er+".", "&C."), ep.conds) {
+			okEnc, why = false, "the position slot is not coded with posSlotCodecs[min(l, 3)] but "+first.recv
 		}
 		switch len(ep.evs) {
 		case 1:
@@ -642,7 +642,7 @@ func ruleDistSiblings(c *Ctx, r *Report, rule string, enc, dec *ssa.Function) {
 		}
 		nDec++
 		slot := dp.evs[0].val
-		if strings.ReplaceAll(dp.evs[0].recv, "&"+dr+".", "&C.") != "&C.posSlotCodecs[(call lenState $l)]" {
+		if !slotCodecOK(strings.ReplaceAll(dp.evs[0].recv, "&"+dr+".", "&C."), dp.conds) {
 			okDec, why = false, "the decoder reads the position slot with "+dp.evs[0].recv
 		}
 		base := "(shl (or (and " + slot + " 1) 2) " + normTerm("(+ (shr "+slot+" 1) -1)") + ")"
@@ -673,7 +673,13 @@ func ruleDistSiblings(c *Ctx, r *Report, rule string, enc, dec *ssa.Function) {
 		}
 		// path conditions: slot < 4 | slot < 14 | else
 		wantC := map[int]string{1: "[0,3]", 2: "[4,13]", 3: "[14,inf]"}[len(dp.evs)]
-		if got := boundsOf(dp.conds, slot); got != wantC {
+		var slotConds []string
+		for _, cd := range dp.conds {
+			if strings.Contains(cd, slot) {
+				slotConds = append(slotConds, cd)
+			}
+		}
+		if got := boundsOf(slotConds, slot); got != wantC {
 			okDec, why = false, "the decoder takes this branch for slots in "+got+" ("+strings.Join(dp.conds, " & ")+"); the format requires "+wantC
 		}
 	}
@@ -690,7 +696,7 @@ func ruleDistSiblings(c *Ctx, r *Report, rule string, enc, dec *ssa.Function) {
 		}
 	}
 	_ = shape
-	r.Check(okEnc && okDec && nEnc >= 3 && nDec == 3 && len(es) == 3 && len(ds) == 3, rule, "distCodec", pos,
+	r.Check(okEnc && okDec && nEnc >= 3 && nDec >= 3 && len(es) == 3 && len(ds) == 3, rule, "distCodec", pos,
 		"position slot, reverse-bit models, direct bits and align bits follow the format's formulas on both sides ("+itoa(nEnc)+" encoder, "+itoa(nDec)+" decoder paths)",
 		"distCodec: "+why)
 }
@@ -743,4 +749,29 @@ func normIdx(t string) string {
 		return t
 	}
 	return t[:i+1] + normTerm(t[i+1:len(t)-1]) + "]"
+}
+
+// slotCodecOK: the position-slot codec is selected by min(l, 3): through lenState(l), or
+// with the clamp inlined (index $l under l < 4, index 3 under l >= 4).
+func slotCodecOK(recv string, conds []string) bool {
+	switch recv {
+	case "&C.posSlotCodecs[(call lenState $l)]":
+		return true
+	case "&C.posSlotCodecs[$l]":
+		return boundsOf(condsAbout(conds, "$l"), "$l") == "[0,3]"
+	case "&C.posSlotCodecs[3]":
+		return boundsOf(condsAbout(conds, "$l"), "$l") == "[4,inf]"
+	}
+	return false
+}
+
+func condsAbout(conds []string, v string) []string {
+	var out []string
+	for _, cd := range conds {
+		as := splitTerm(cd[strings.IndexByte(cd, ' ')+1 : len(cd)-1])
+		if len(as) == 2 && (as[0] == v || as[1] == v) {
+			out = append(out, cd)
+		}
+	}
+	return out
 }
